@@ -215,9 +215,15 @@ func normalizeToIntString(n numberParts) (string, bool) {
 
 		// Make sure resulting digits are within max value limit to avoid
 		// unnecessarily constructing a large byte slice that may simply fail
-		// later on.
+		// later on. The integer part is empty if it is 0, in which case the
+		// leading zeros of the fraction are not significant digits
+		// (0.01e21 is 1e19, which has 20 digits).
 		const maxDigits = 20 // Max uint64 value has 20 decimal digits.
-		if intpSize+exp > maxDigits {
+		digits := intpSize + exp
+		if intpSize == 0 {
+			digits -= fracSize - len(bytes.TrimLeft(n.frac, "0"))
+		}
+		if digits > maxDigits {
 			return "", false
 		}
 
